@@ -264,8 +264,7 @@ def run_case(case):
     for sig, v in viol.items():
         if not common.claim('C15', sig):
             continue
-        d = replay_lib.make_c15_replay(ref, v)
-        status, out = common.run_replay(d)
+        d, status, out = common.replay_portfolio(lambda: replay_lib.make_c15_replay(ref, v))
         v['replay'] = d
         if status == 'reproduced':
             res['violations'].append(v)
